@@ -213,7 +213,8 @@ def _values(ctx):
     # ambiguous forms: only compared with the model, no oracle verdict
     for L in (3, 4, 10, 16, 17, 20):
         out.append((('urn' + 'x' * L)[:L], 'ambiguous'))
-        out.append((('URN:' + 'x' * L)[:max(L, 4)], 'ambiguous'))
+        out.append((('URN:' + 'x' * L)[:max(L, 5)], 'urn'))          # RFC 8141: the leading "urn" is case-insensitive
+        out.append((('Urn:' + 'y' * L)[:max(L, 5)], 'urn'))
         out.append((('a' * (L // 2) + '://' + 'b' * L)[:max(L, 5)], 'ambiguous'))
     out += [('äöüß' * 4, 'plain'), ('äöüß' * 4 + 'x', 'plain'), ('1234567890123456', 'plain'), ('12345678901234567', 'plain')]
     for _ in range(ctx.n(20, 400)):
@@ -287,6 +288,42 @@ def _constructor(ctx, reqs, pending):
                                      [k for k in CODE_KWS if hasattr(c2, k)] == present)
                     if st4 != 'ok' or not same:
                         ctx.fail(dict(case, what='ctor-file'), f'code changed through the file ({same!r})', site='file')
+
+
+SPECIALS = [
+    # (value, scheme, meaning, version, must be refused?)  -- the DICOM value delimiter in any argument cannot be stored
+    ('a\\b', '99HDV', 'm', None, True), ('\\', '99HDV', 'm', None, True), ('abc\\', '99HDV', 'm', '1', True),
+    ('a' * 17 + '\\b', '99HDV', 'm', None, True), ('urn:oid:1.2\\3', '99HDV', 'm', None, True),
+    ('abc', '99\\HDV', 'm', None, True), ('abc', '99HDV', 'x\\y', None, True), ('abc', '99HDV', 'm', '1\\2', True),
+    ('abc', '99HDV', '\\' * 3, '2.0', True),
+    # other characters that are special somewhere in DICOM but are kept as they are in memory
+    (' a ', '99HDV', ' m ', None, False), ('a b', '99HDV', 'two  spaces', ' 1 ', False), ('a\nb', '99HDV', 'm\tn', None, False),
+    ('a^b=c', '99HDV', 'x^y=z', None, False), ('*?%', '99HDV', '"quoted"', None, False), ('/', '99HDV', '/', '/', False),
+    ('\u00e4\u00f6\u00fc', '99HDV', '\u00df\u4e2d', None, False), ('abc', '99HDV', 'm', '', False),
+]
+
+
+def _special_characters(ctx, reqs, pending):
+    from pydicom.sr.coding import Code
+    from highdicom.sr.coding import CodedConcept
+    for idx, (v, sch, m, ver, refuse) in enumerate(SPECIALS):
+        case = {'what': 'ctor-special', 'special': idx, 'args': [v, sch, m, ver]}
+        st, c = _try(CodedConcept, v, sch, m, ver)
+        ctx.case(sample=case if idx in (0, 9) else None, nontrivial_key=('special', idx), special=('backslash' if refuse else 'kept'),
+                 ctor_outcome=(st if st == 'ok' else c))
+        reqs.append(('mk', {'value': v, 'scheme': sch, 'meaning': m, 'version': ver}))
+        if st != 'ok':
+            pending.append((dict(case, what='ctor'), ('err', _kind(c))))
+            if not refuse:
+                ctx.fail(case, f'constructor refused a storable code: {c}', site='ctor-special')
+            continue
+        pending.append((dict(case, what='ctor'), ('ok', sorted(_ds_pairs(c)))))
+        # whatever is accepted must read back unchanged, hash and compare like the matching Code
+        stv, back = _try(lambda: (c.value, c.scheme_designator, c.meaning, c.scheme_version))
+        sth, good = _try(lambda: hash(c) == hash(Code(v, sch, m, ver)) and (c == Code(v, sch, m, ver)) and (Code(v, sch, m, ver) == c))
+        if stv != 'ok' or back != (v, sch, m, ver) or sth != 'ok' or not good:
+            ctx.fail(case, f'accepted arguments {[v, sch, m, ver]!r} read back as {back!r}; hash/== with the matching Code: {good!r}'
+                     + (' (an argument containing a backslash must be refused)' if refuse else ''), site='ctor-special')
 
 
 # ------------------------------------------------------------------ 3. from_dataset / from_code
@@ -557,6 +594,7 @@ def run(ctx):
     for variant in range(1, ctx.n(2, 8)):
         _relations(ctx, reqs, pending, variant)
     _constructor(ctx, reqs, pending)
+    _special_characters(ctx, reqs, pending)
     _from_dataset(ctx, reqs, pending)
     _from_code(ctx, objs, retired, reqs, pending)
     _mutations(ctx, objs, alias, reqs, pending)
@@ -597,6 +635,9 @@ def replay(ctx, case):
     if what == 'refl':
         a = mk(case['a'])
         return None if a == a else {'a==a': False}
+    if what == 'ctor-special':
+        _special_characters(sub, [], [])
+        return [f for f in sub.failures if f['case'].get('special') == case.get('special')][:2] or None
     if what in ('ctor', 'ctor-file'):
         st, c = _try(CodedConcept, case['value'], '99HDV', 'm' * case['meaning_len'], case['version'])
         if st != 'ok':
